@@ -210,7 +210,17 @@ impl<'a> Wire<'a> {
 
     fn uninstall(&mut self, id: u32) {
         if let Some(g) = self.guards.remove(&id) {
-            drop(g);
+            if id % 3 == 0 {
+                // the guard goes away while a panic unwinds (its owner panicked and the panic is contained, as
+                // tokio does for a task): the rule must stop applying all the same
+                let _ = crate::core::catch(move || {
+                    let _owned = g;
+                    panic!("the owner of the rule guard panics");
+                });
+                self.rep.faults.inc("guard_dropped_by_an_unwinding_panic");
+            } else {
+                drop(g);
+            }
             let pos = self.alive.iter().position(|r| r.id == id).unwrap();
             if pos + 1 < self.alive.len() {
                 self.rep.probes.inc("guard_dropped_not_last");
